@@ -106,7 +106,8 @@ def genesisPre (g : Genesis) : State :=
     pool := g.pool, feeAcc := g.feeAcc, posAcc := g.posAcc, daoAcc := g.daoAcc,
     keys := g.keys, nStored := g.nStored, height := 0, time := 0, cHeight := 0, cTime := 0, index := [], blockTxs := [],
     bal2 := g.accs2.foldl (fun m e => if e.2 == 0 then m else aset m e.1 e.2) [],
-    supply2 := g.accs2.foldl (fun t e => t + e.2) 0, keyNodes := g.keyNodes }
+    supply2 := g.accs2.foldl (fun t e => t + e.2) 0, keyNodes := g.keyNodes,
+    accts := g.accs.foldl (fun m e => aset m e.1 ()) [], keyed := g.accs.map (·.1) }
   let s1 := g.accs.foldl (fun st e => { setBal st e.1 e.2 with supply := st.supply + e.2 }) s0
   let s2 := g.vals.foldl (fun st e =>
     let v : Val := { status := 2, jailed := false, tokens := e.2, unstake := 0 }
